@@ -282,6 +282,8 @@ impl ArrayStore {
             let val = slice[i];
             // We want to do `slice[pos] = val` but we don't need the bounds check.
             // SAFETY: pos is always at most i because `f(val) as usize` is at most 1.
+            #[cfg(roaring_verif)]
+            crate::verif_hooks::site(9, pos, slice.len());
             unsafe { *slice.get_unchecked_mut(pos) = val }
             pos += f(val) as usize;
         }
